@@ -1678,6 +1678,20 @@ theorem c16_src_BlockExtra (v : Val) (f : Frag) (he : blockExtra.enc v = some f)
     SrcBlk.BlockExtra false (f ++ k) = some (Blk.view_BlockExtra v, k) :=
   Blk.refines_BlockExtra.on_encoding v f he hv k
 
+/-- `Block.deserialize` (`block#11ef55aa`: `global_id`, `info:^BlockInfo`, `value_flow:^ValueFlow`, `state_update`, `extra:^BlockExtra`, each
+    through its regenerated parser), regenerated from the source: every field, exact consumption.  `MerkleUpdate.deserialize` (text
+    pinned) is modelled for an ORDINARY `state_update` cell only (it returns `None`; hypothesis `ordinaryStateUpdate`): a real Merkle
+    update (exotic cell, two nested shard states) is outside the model — the bundled main-net block is covered by the first two layers. -/
+theorem c16_src_Block (v : Val) (f : Frag) (he : block.enc v = some f) (hv : v.noVar = true)
+    (ho : Blk.ordinaryStateUpdate v = true) (k : Frag) :
+    SrcBlk.Block false (f ++ k) = some (Blk.view_Block v, k) :=
+  Blk.refines_Block.on_encoding v f he ⟨hv, ho⟩ k
+
+/-- non-vacuity of `ordinaryStateUpdate`: an ordinary cell satisfies it, an exotic one does not -/
+example : Blk.ordinaryStateUpdate (.record [("state_update", .cell (Cell.mk false [true] []))]) = true ∧
+    Blk.ordinaryStateUpdate (.record [("state_update", .cell (Cell.mk true [true] []))]) = false := by
+  constructor <;> decide +kernel
+
 /-- the hand model of `deserialize_shard_hashes` + `BinTree.deserialize` (`Rd.loadShardHashes`; source text pinned by the translator)
     against `HashmapE 32 ^(BinTree X)`: `None` / the dict of BinTree objects whose `.list` holds the leaves left to right, each parsed by
     a leaf reader that agrees with `X`; exact consumption. -/
